@@ -660,5 +660,130 @@ class HypervMal(c17.MalSuite):
         return core.sha(core.jdump(case).encode())
 
 
-SUITES = {"raw": HypervRaw(), "hdd_split_term": HddSplitTerm(), "hyperv_mal": HypervMal(), "vmdk_desc": VmdkDescText(), "bombs": Bombs(), "wild_vdi": WildVdi(), "wild_hds": WildHds(), "wild_vhdx": WildVhdx(), "mutants": Mutants(),
+class ParentGraphs(Suite):
+    """Parent references that are followed by path (VHDX parent locators with a relative and an absolute entry that both
+    resolve; VMDK descriptors with parentFileNameHint): chains of 2..30 links ending in a good base, a damaged base, a
+    missing file, a link back into the chain, or the image itself.  Opening returns or raises, and constructs no more
+    reader objects than a few per link (a cycle: no more than the interpreter's recursion limit allows) — not a number
+    that doubles with every link."""
+    name = "parent_graphs"
+    per_case_timeout = 60.0
+    shard = 100
+
+    def generate(self, rng, tier):
+        out = []
+        ends = ["base-ok", "base-damaged", "missing", "cycle", "self"]
+        for fmt in ("vhdx", "vmdk"):
+            for end in ends:
+                depths = [2, rng.randint(3, 9), rng.randint(10, 18), rng.randint(19, 30)] if tier == "thorough" else \
+                    [rng.randint(2, 6), rng.randint(14, 26)]
+                for d in depths:
+                    out.append({"fmt": fmt, "end": end, "depth": 1 if end == "self" else d, "back": rng.randrange(0, d),
+                                "abs_same": rng.chance(0.5), "salt": rng.randrange(1 << 20)})
+        return out
+
+    def build(self, case, tmp):
+        d, fmt, end = case["depth"], case["fmt"], case["end"]
+        vm, other = os.path.join(tmp, "vm"), os.path.join(tmp, "elsewhere")
+        os.makedirs(vm)
+        os.makedirs(other)
+        ext = "vhdx" if fmt == "vhdx" else "vmdk"
+        names = [f"link{i}.{ext}" for i in range(d)]
+
+        def target(i):            # the parent of link i: (file name or None)
+            if i < d - 1:
+                return names[i + 1]
+            return {"base-ok": None, "base-damaged": None, "missing": "gone." + ext, "cycle": names[case["back"] % d],
+                    "self": names[i]}[end]
+        for i, nm in enumerate(names):
+            par = target(i)
+            path = os.path.join(vm, nm)
+            if fmt == "vhdx":
+                c = {"size": MB, "block_size": MB, "sector_size": 512, "blocks": [[0, 0]], "bat_offset": 3 * MB,
+                     "file_size": 4 * MB, "has_parent": par is not None, "salt": case["salt"] + i, "disk_id": i + 1}
+                if par is not None:
+                    ap = os.path.join(vm if case["abs_same"] else other, par)
+                    c["locator"] = {"relative_path": ".\\" + par, "absolute_win32_path": ap.lstrip("/").replace("/", "\\")}
+                    if not case["abs_same"] and par != "gone." + ext and not os.path.exists(ap):
+                        os.symlink(os.path.join(vm, par), ap)      # the registered absolute path leads to the same file
+                sf = fmt_vhdx.build(c)
+                with open(path, "wb") as fh:
+                    fh.truncate(c["file_size"])
+                    for off, b in sf._chunks:
+                        fh.seek(off)
+                        fh.write(b)
+            else:
+                with open(path, "w") as fh:
+                    fh.write("# Disk DescriptorFile\nversion=1\nCID=%08x\nparentCID=%s\n" % (i + 1, "ffffffff" if par is None else "%08x" % (i + 2)))
+                    if par is not None:
+                        fh.write('parentFileNameHint="%s"\n' % par)
+                    fh.write('createType="monolithicFlat"\nRW 8 FLAT "data-flat.bin" 0\n')
+            if i == d - 1 and end == "base-damaged":
+                with open(path, "r+b") as fh:
+                    fh.seek(0)
+                    fh.write(b"\xde\xad" * 64 if fmt == "vhdx" else b"KDMV" + b"\xff" * 60)
+        with open(os.path.join(vm, "data-flat.bin"), "wb") as fh:
+            fh.write(bytes(8 * 512))
+        return os.path.join(vm, names[0])
+
+    def impl(self, case):
+        import sys
+        from pathlib import Path
+        if case["fmt"] == "vhdx":
+            import dissect.hypervisor.disk.vhdx as mod
+            cls_name = "VHDX"
+        else:
+            import dissect.hypervisor.disk.vmdk as mod
+            cls_name = "VMDK"
+        orig = getattr(mod, cls_name)
+        count = [0]
+
+        class Counting(orig):
+            def __init__(self, *a, **k):
+                count[0] += 1
+                super().__init__(*a, **k)
+        Counting.__name__ = cls_name
+        tmp = tempfile.mkdtemp(prefix="verif_c11g_")
+        setattr(mod, cls_name, Counting)
+        try:
+            top = self.build(case, tmp)
+            try:
+                v = Counting(Path(top))
+                n = len(v.read(4096))
+                res = {"outcome": "ok", "n": n}
+            except RecursionError:
+                res = {"outcome": "exc", "exc": "RecursionError"}
+            except Exception as e:  # noqa: BLE001
+                res = {"outcome": "exc", "exc": type(e).__name__}
+            res["objects"] = count[0]
+            res["limit"] = sys.getrecursionlimit()
+            return res
+        finally:
+            setattr(mod, cls_name, orig)
+            shutil.rmtree(tmp, ignore_errors=True)
+
+    def judge(self, case, impl_res, coq_val):
+        o = impl_res.get("outcome")
+        label = f"{case['fmt']} chain of {case['depth']} links ending in {case['end']}"
+        if o not in ("ok", "exc"):
+            return [Finding("impl_fault", f"{label}: implementation {o} {impl_res.get('detail', '')[:200]}",
+                            f"{case['fmt']}:parents:{o}")]
+        bound = impl_res["limit"] + 8 if case["end"] in ("cycle", "self") else 4 * case["depth"] + 8
+        fs = []
+        if impl_res["objects"] > bound:
+            fs.append(Finding("impl_vs_spec", f"{label}: {impl_res['objects']} reader objects were constructed (bound {bound})",
+                              f"{case['fmt']}:parents:fanout"))
+        if case["end"] == "base-ok" and o != "ok":
+            fs.append(Finding("impl_vs_spec", f"{label}: a well-formed chain was refused ({impl_res.get('exc')})",
+                              f"{case['fmt']}:parents:refused"))
+        return fs
+
+    def nontrivial(self, case, impl_res, coq_val):
+        return core.sha(core.jdump(case).encode())
+
+    def dist(self, case):
+        return {"fmt": case["fmt"], "end": case["end"], "depth": case["depth"] // 10 * 10}
+
+
+SUITES = {"raw": HypervRaw(), "parent_graphs": ParentGraphs(), "hdd_split_term": HddSplitTerm(), "hyperv_mal": HypervMal(), "vmdk_desc": VmdkDescText(), "bombs": Bombs(), "wild_vdi": WildVdi(), "wild_hds": WildHds(), "wild_vhdx": WildVhdx(), "mutants": Mutants(),
           "snapchain": SnapChain()}
